@@ -41,6 +41,7 @@ type Config struct {
 	MQ            StreamProfile                `json:"mq"`
 	HorizonMs     int64                        `json:"horizon_ms"`
 	ShutdownAtMs  int64                        `json:"shutdown_at_ms,omitempty"` // gateway ctx cancelled here (0 = at horizon)
+	PreCensus     bool                         `json:"pre_census,omitempty"`     // goroutine census right before the gateway is shut down too
 	RestartAtMs   int64                        `json:"restart_at_ms,omitempty"`  // fresh ListenAndServe afterwards (nothing durable)
 	DrainMs       int64                        `json:"drain_ms,omitempty"`       // time simulated after shutdown (default 3000)
 }
